@@ -17,8 +17,10 @@ func init() {
 			"(R2) the only send on Subscription.Feed is a non-blocking select under subscriptionLock.RLock filtered by permission and query match; the only close of a feed is in Cancel, under the write lock, reachable only when the subscription was found and removed, at most once; " +
 			"(R3) hook phase table (UsesPreGet->PreGet guarded by MatchesKey, UsesPostGet->PostGet and UsesPrePut->PrePut guarded by Matches), pre-get before the storage read, post-get before the validity test, pre-put before the storage write, a hook error returns before the storage operation, hook list accessed under hooksLock; " +
 			"(R4) Cancel of a subscription/hook removes the receiver itself (pointer identity), registration appends under the write lock. " +
+			"(R5) lock pairing over the functions of package(s) database, database/record: " + lockRuleText + ". " +
 			"NOT decided: exactly-once/in-order delivery over write histories, behaviour when the feed buffer is full.",
-		Rules: []ruleFn{c14R1, c14R2, c14R3, c14R4},
+		Rules: []ruleFn{c14R1, c14R2, c14R3, c14R4,
+			lockRuleFor("C14-R5", 20, []string{"database", "database/record"}, []string{}, map[string]string{})},
 	})
 }
 
